@@ -2,8 +2,8 @@ package props
 
 import (
 	"bytes"
-	stdjson "encoding/json"
 	"encoding/binary"
+	stdjson "encoding/json"
 	"fmt"
 	"io"
 	"math"
@@ -74,7 +74,9 @@ func (st *c01State) sweep(c *fw.Ctx, kind string, data []byte, track bool) {
 		data = data[:st.arena.Cap()]
 	}
 	key := fw.InputKey(data, 0, "sweep")
-	mk := func() any { return c01Case{Kind: kind, In: append([]byte(nil), data...), Entry: "sweep", InQ: fw.Quote(data, 100)} }
+	mk := func() any {
+		return c01Case{Kind: kind, In: append([]byte(nil), data...), Entry: "sweep", InQ: fw.Quote(data, 100)}
+	}
 	c.Trace(func() (string, any) { return key, mk() })
 	g := st.arena.Place(data)
 	n := len(g)
@@ -154,7 +156,9 @@ func (cr *c01ChunkReader) Read(p []byte) (int, error) {
 func (st *c01State) readerFile(c *fw.Ctx, kind string, data []byte) {
 	for _, lim := range []uint32{0, 1, 3072, uint32(len(data)), uint32(len(data) + 1)} {
 		key := fw.InputKey(data, lim, "DetectReader")
-		mk := func() any { return c01Case{Kind: kind, In: append([]byte(nil), data...), Entry: "reader", InQ: fw.Quote(data, 100)} }
+		mk := func() any {
+			return c01Case{Kind: kind, In: append([]byte(nil), data...), Entry: "reader", InQ: fw.Quote(data, 100)}
+		}
 		c.Trace(func() (string, any) { return key, mk() })
 		c.Guard(key, mk, func() {
 			mimetype.SetLimit(lim)
@@ -173,7 +177,9 @@ func (st *c01State) readerFile(c *fw.Ctx, kind string, data []byte) {
 	defer os.Remove(f)
 	for _, lim := range []uint32{0, 3072, uint32(len(data) / 2)} {
 		key := fw.InputKey(data, lim, "DetectFile")
-		mk := func() any { return c01Case{Kind: kind, In: append([]byte(nil), data...), Entry: "file", InQ: fw.Quote(data, 100)} }
+		mk := func() any {
+			return c01Case{Kind: kind, In: append([]byte(nil), data...), Entry: "file", InQ: fw.Quote(data, 100)}
+		}
 		c.Trace(func() (string, any) { return key, mk() })
 		c.Guard(key, mk, func() {
 			mimetype.SetLimit(lim)
